@@ -448,6 +448,7 @@ func checkC10(c CaseC10, info *Info) *Failure {
 	}
 	if sep != ":" {
 		mxj.SetFieldSeparator(sep)
+		bystanders()
 	}
 	path := strings.Join(c.Steps, ".")
 	sp := specs(c.Conds, sep)
